@@ -4,11 +4,18 @@ import (
 	"bytes"
 	"encoding/binary"
 	"encoding/hex"
+	stdjson "encoding/json"
 	"fmt"
+	"github.com/ipld/go-ipld-prime/node/bindnode"
+	"github.com/ipld/go-ipld-prime/schema"
 	"os/exec"
+	"reflect"
 	"runtime"
 	"strings"
 	"time"
+	rs "verif/lib/ref/schema"
+	"verif/lib/schemagen"
+	"verif/lib/typedmon"
 
 	"github.com/ipld/go-ipld-prime/codec/cbor"
 	"github.com/ipld/go-ipld-prime/codec/dagcbor"
@@ -32,6 +39,7 @@ type c10 struct{}
 func init() {
 	fw.Register(c10{})
 	fw.RegisterAux("c10probe", c10GrowthProbe)
+	fw.RegisterAux("c10time", c10TimeProbe)
 }
 
 func fwSetMemLimit(b uint64) { fw.SetMemLimit(b) }
@@ -61,6 +69,37 @@ func (c10) Orchestrate(p *fw.Parent) error {
 		p.AddDeviation(fw.Deviation{Sig: "C10:multi-edge-recursion-exponential-growth", Index: -1,
 			Detail: "walking R(none){|[., a{@}, a{@}, a{@}]} over a 16-deep one-child list under a 1.5 GiB address-space limit " + why})
 	}
+	// decode-time probe (own process): "terminates" restated as bounded progress relative to the same
+	// decoder on a canonical input of the same size — see c10TimeProbe
+	tcmd := exec.Command(p.ChildBinary(false), "-aux", "c10time")
+	tdone := make(chan struct{})
+	var tout []byte
+	go func() { tout, _ = tcmd.CombinedOutput(); close(tdone) }()
+	select {
+	case <-tdone:
+	case <-time.After(300 * time.Second):
+		tcmd.Process.Kill()
+		<-tdone
+		p.AddInconclusive("decode-time probe: killed by its 300 s watchdog (its own deadlines should have ended it long before)")
+		return nil
+	}
+	for _, line := range strings.Split(string(tout), "\n") {
+		var r struct {
+			Decoder, Shape        string
+			N                     int
+			Seconds, Base, Factor float64
+			Exceeded              bool
+		}
+		if stdjson.Unmarshal([]byte(line), &r) != nil || r.Decoder == "" {
+			continue
+		}
+		p.Count("decode_time_probes", 1)
+		p.Count("decode_time_factor_x10:"+r.Decoder+":"+r.Shape, int64(r.Factor*10))
+		if r.Exceeded {
+			p.AddDeviation(fw.Deviation{Sig: "C10:decode-time-not-bounded:" + r.Decoder + ":" + r.Shape, Index: -1,
+				Detail: fmt.Sprintf("%s decoding a %d-entry map with keys in %s order (well inside the default allocation budget) did not finish within %.1f s = 60 × the %.3f s the same decoder needs for the same entries in canonical order, + 2 s", r.Decoder, r.N, r.Shape, r.Seconds, r.Base)})
+		}
+	}
 	return nil
 }
 
@@ -78,7 +117,7 @@ func (c10) ID() string { return "C10" }
 func (c10) Plan(tier string) fw.Plan {
 	p := fw.Plan{
 		Batches: 16, Cases: 3000, TimeoutSec: 1500, MemMB: 8192, Level: "exploration",
-		Rule: "three interleaved case families. (A) decoders: the five decoders (dag-cbor, cbor, dag-json, json, raw) × inputs (uniform random bytes; single/multi-point mutations of valid encodings; structure-aware hostile inputs: maximal and wrapping declared lengths in every length position, nesting at MaxDepth−1/0/+1 incl. link/bytes values between levels for dag-json, many tiny items, huge tags) × configurations (MaxDepth ∈ {1,2,16,default}, AllocationBudget ∈ {1,64,4096,default}, MaxCollectionPrealloc ∈ {1,16,1024,2^20}, strict/relaxed, links on/off, stop-at-end on/off; dag-json ParseLinks/ParseBytes/MaxDepth) × targets (basicnode Any, recording assembler, bindnode and generated typed prototypes). Monitors: panic/process death; nesting depth seen by a recording assembler ≤ MaxDepth; bytes allocated (runtime.MemStats.TotalAlloc delta, sampled cases) ≤ 256·budget + 1024·len(input) + 1 MiB for dag-cbor into basicnode and ≤ 4096·len(input) + 1 MiB for the JSON decoders. (B) selector compilation of random trees, mutated valid specs and well-shaped specs with extreme integers and degenerate recursion; every selector that compiles is walked (WalkAdv, WalkMatching, WalkTransforming) over random graphs through a link system serving arbitrary bytes for arbitrary links incl. links whose declared digest length exceeds the hash output. (C) datamodel.ParsePath on arbitrary strings. Termination: per-batch watchdog (inconclusive when it fires). Non-trivial: structured (non-uniform-random) input; distinct by input hash.",
+		Rule:        "three interleaved case families. (A) decoders: the five decoders (dag-cbor, cbor, dag-json, json, raw) × inputs (uniform random bytes; single/multi-point mutations of valid encodings; structure-aware hostile inputs: maximal and wrapping declared lengths in every length position, nesting at MaxDepth−1/0/+1 incl. link/bytes values between levels for dag-json, many tiny items, huge tags) × configurations (MaxDepth ∈ {1,2,16,default}, AllocationBudget ∈ {1,64,4096,default}, MaxCollectionPrealloc ∈ {1,16,1024,2^20}, strict/relaxed, links on/off, stop-at-end on/off; dag-json ParseLinks/ParseBytes/MaxDepth) × targets (basicnode Any, recording assembler, bindnode and generated typed prototypes). Monitors: panic/process death; nesting depth seen by a recording assembler ≤ MaxDepth; bytes allocated (runtime.MemStats.TotalAlloc delta, sampled cases) ≤ 256·budget + 1024·len(input) + 1 MiB for dag-cbor into basicnode and ≤ 4096·len(input) + 1 MiB for the JSON decoders. (B) selector compilation of random trees, mutated valid specs and well-shaped specs with extreme integers and degenerate recursion; every selector that compiles is walked (WalkAdv, WalkMatching, WalkTransforming) over random graphs through a link system serving arbitrary bytes for arbitrary links incl. links whose declared digest length exceeds the hash output. (C) datamodel.ParsePath on arbitrary strings. Termination: per-batch watchdog (inconclusive when it fires). Non-trivial: structured (non-uniform-random) input; distinct by input hash.",
 		Assumptions: []string{"allocation constants are calibrated on the unchanged tree with ≥4× headroom; the monitor polices growth with the configured budget, not constants"},
 		MinEvents:   []string{"decodes:dagcbor", "decodes:dagjson", "decodes:cbor", "decodes:json", "decodes:raw", "depth_checks", "alloc_checks", "selector_compiles", "selectors_compiled_ok", "walks", "parsepath_calls"},
 	}
@@ -250,11 +289,66 @@ func (c10) RunCase(c *fw.Ctx, rng *fw.RNG, batch, i int) {
 	case 2:
 		c10Selector(c, rng)
 	default:
-		if i%8 == 3 {
+		switch {
+		case i%8 == 3:
 			c10Path(c, rng)
-		} else {
+		case i%16 == 7:
+			c10TypedMutations(c, rng)
+		default:
 			c10Decoder(c, rng, i)
 		}
+	}
+}
+
+// c10TypedMutations: byte-level mutations of VALID representations of typed values, decoded into the typed
+// (representation) builders — random type systems bound with bindnode (inferred and user-supplied Go types)
+// and the declared Go type library with its narrow and unsigned integers. Hostile bytes that are almost
+// right reach deep into the typed assemblers, where uniform random input dies at the first token.
+// Monitors: no panic in the decode; a node that was accepted can be read in full without a panic.
+func c10TypedMutations(c *fw.Ctx, rng *fw.RNG) {
+	type target struct {
+		name string
+		ts   *rs.TypeSystem
+		t    *rs.Type
+		p    datamodel.NodePrototype // representation prototype
+	}
+	var targets []target
+	if rng.Chance(1, 3) {
+		if err := c19Init(); err != nil {
+			return
+		}
+		name := c19DeclaredNames[rng.Intn(len(c19DeclaredNames))]
+		g := c19DeclaredGo[name]
+		var tp schema.TypedPrototype
+		if c.Guard("C10:typed-mutations:bind", func() {
+			tp = bindnode.Prototype(reflect.Zero(reflect.PointerTo(g)).Interface(), c19DeclaredLib.TypeByName(name))
+		}) {
+			return
+		}
+		targets = append(targets, target{"declared:" + name, c19Declared, c19Declared.T(name), tp.Representation()})
+	} else {
+		ts := schemagen.Gen(rng, schemagen.Opts{Types: 4 + rng.Intn(5)})
+		lib, err := schemagen.ToLibrary(ts)
+		if err != nil {
+			return
+		}
+		eng := newBindEngine(lib)
+		if rng.Bool() {
+			eng = newShapedBindEngine(lib, ts, rng)
+		}
+		for _, t := range ts.Types {
+			if t.Name[0] != 'T' {
+				continue
+			}
+			if _, rp := eng.Proto(t.Name); rp != nil {
+				targets = append(targets, target{eng.Name() + ":" + typeKindName(t), ts, t, rp})
+			}
+		}
+	}
+	var cur string
+	c.SetCase(func() any { return map[string]any{"family": "typed-mutations", "current": cur} })
+	for _, tg := range targets {
+		typedmon.MutatedDecodes(c, tg.name, tg.ts, tg.t, tg.p, rng, &cur)
 	}
 }
 
@@ -395,7 +489,9 @@ func c10Path(c *fw.Ctx, rng *fw.RNG) {
 	default:
 		s = fmt.Sprintf("%d/%d/-%d/%s", rng.U64(), rng.Intn(10), rng.U64(), "99999999999999999999999")
 	}
-	c.SetCase(func() any { return map[string]any{"family": "path", "input_hex": hex.EncodeToString([]byte(clipS(s, 2000)))} })
+	c.SetCase(func() any {
+		return map[string]any{"family": "path", "input_hex": hex.EncodeToString([]byte(clipS(s, 2000)))}
+	})
 	c.Seen(fw.HashString("path"+s), len(s) > 0)
 	c.Guard("C10:ParsePath", func() {
 		p := datamodel.ParsePath(s)
@@ -407,4 +503,135 @@ func c10Path(c *fw.Ctx, rng *fw.RNG) {
 		p.Len()
 		c.Count("parsepath_calls", 1)
 	})
+}
+
+// c10TimeProbe: decode time must not depend super-linearly on the ARRANGEMENT of an input that fits the
+// configured budgets. For each decoder the same N map entries are decoded in canonical order (baseline, best
+// of three) and in adversarial arrangements (descending, shuffled, descending-by-length); an arrangement that
+// has not finished after 60× the baseline + 2 s is reported. The clock only compares the decoder with itself
+// in the same process, with a margin far beyond scheduling noise.
+func c10TimeProbe([]string) int {
+	const n = 100000
+	keys := make([]string, n)
+	for i := range keys {
+		keys[i] = fmt.Sprintf("k%06d", i)
+	}
+	arrange := map[string]func() []string{
+		"descending": func() []string {
+			out := make([]string, n)
+			for i := range out {
+				out[i] = keys[n-1-i]
+			}
+			return out
+		},
+		"shuffled": func() []string {
+			out := append([]string(nil), keys...)
+			r := fw.NewRNG(12345)
+			for i := len(out) - 1; i > 0; i-- {
+				j := r.Intn(i + 1)
+				out[i], out[j] = out[j], out[i]
+			}
+			return out
+		},
+		"interleaved-ends": func() []string {
+			out := make([]string, 0, n)
+			for i, j := 0, n-1; i <= j; i, j = i+1, j-1 {
+				out = append(out, keys[j])
+				if i != j {
+					out = append(out, keys[i])
+				}
+			}
+			return out
+		},
+	}
+	minHead := func(major byte, n uint64) []byte {
+		switch {
+		case n < 24:
+			return []byte{major<<5 | byte(n)}
+		case n < 1<<8:
+			return []byte{major<<5 | 24, byte(n)}
+		case n < 1<<16:
+			return []byte{major<<5 | 25, byte(n >> 8), byte(n)}
+		case n < 1<<32:
+			return []byte{major<<5 | 26, byte(n >> 24), byte(n >> 16), byte(n >> 8), byte(n)}
+		}
+		return be64(major, n)
+	}
+	encCBOR := func(ks []string) []byte {
+		out := minHead(5, uint64(len(ks)))
+		for _, k := range ks {
+			out = append(out, minHead(3, uint64(len(k)))...)
+			out = append(out, k...)
+			out = append(out, 0x01)
+		}
+		return out
+	}
+	encJSON := func(ks []string) []byte {
+		var b bytes.Buffer
+		b.WriteByte('{')
+		for i, k := range ks {
+			if i > 0 {
+				b.WriteByte(',')
+			}
+			fmt.Fprintf(&b, "%q:1", k)
+		}
+		b.WriteByte('}')
+		return b.Bytes()
+	}
+	decoders := []struct {
+		name string
+		enc  func([]string) []byte
+		dec  func([]byte) error
+	}{
+		{"dagcbor-strict", encCBOR, func(in []byte) error {
+			return dagcbor.Decode(basicnode.Prototype.Any.NewBuilder(), bytes.NewReader(in))
+		}},
+		{"dagcbor-relaxed", encCBOR, func(in []byte) error {
+			return dagcbor.DecodeOptions{AllowLinks: true, RelaxedDecode: true}.Decode(basicnode.Prototype.Any.NewBuilder(), bytes.NewReader(in))
+		}},
+		{"dagjson", encJSON, func(in []byte) error {
+			return dagjson.Decode(basicnode.Prototype.Any.NewBuilder(), bytes.NewReader(in))
+		}},
+	}
+	for _, d := range decoders {
+		canon := d.enc(keys)
+		base := time.Duration(1 << 62)
+		for k := 0; k < 3; k++ {
+			t0 := time.Now()
+			if err := d.dec(canon); err != nil {
+				fmt.Printf("{\"Decoder\":%q,\"Shape\":\"canonical-rejected: %s\"}\n", d.name, strings.ReplaceAll(err.Error(), "\"", "'"))
+				base = 0
+				break
+			}
+			if el := time.Since(t0); el < base {
+				base = el
+			}
+		}
+		if base == 0 {
+			continue
+		}
+		for _, shape := range []string{"descending", "shuffled", "interleaved-ends"} {
+			in := d.enc(arrange[shape]())
+			deadline := 60*base + 2*time.Second
+			done := make(chan time.Duration, 1)
+			go func() {
+				t0 := time.Now()
+				d.dec(in)
+				done <- time.Since(t0)
+			}()
+			var el time.Duration
+			exceeded := false
+			select {
+			case el = <-done:
+			case <-time.After(deadline):
+				el, exceeded = deadline, true
+			}
+			fmt.Printf("{\"Decoder\":%q,\"Shape\":%q,\"N\":%d,\"Seconds\":%.3f,\"Base\":%.4f,\"Factor\":%.2f,\"Exceeded\":%v}\n",
+				d.name, shape, n, el.Seconds(), base.Seconds(), el.Seconds()/base.Seconds(), exceeded)
+			if exceeded {
+				return 0 // the decode goroutine is still burning a core; end the process
+			}
+		}
+	}
+	return 0
 }
